@@ -22,6 +22,7 @@ use rand::Rng;
 use serde::Serialize;
 use serde_json::{json, Value};
 use smartcore::algorithm::neighbour::KNNAlgorithmName;
+use smartcore::api::{Predictor, UnsupervisedEstimator};
 use smartcore::cluster::dbscan::{DBSCANParameters, DBSCAN};
 use smartcore::linalg::naive::dense_matrix::DenseMatrix;
 use smartcore::math::distance::{Distance, Distances};
@@ -30,7 +31,7 @@ use std::sync::mpsc;
 use std::time::Duration;
 use vutil::*;
 
-#[derive(Clone, Debug)]
+#[derive(Clone, Debug, Default)]
 struct Case {
     ev: String,     // "Run" | "BadParam"
     src: String,    // family / origin of the input
@@ -43,11 +44,26 @@ struct Case {
     ty: String,     // "f64" | "f32"
     scale_exp: i32,
     qs: Vec<Vec<i64>>,
+    /// two-level encoding of the coordinates (multi-scale family): when enc_m > 0 an integer
+    /// coordinate c of `pts` / `qs` stands for the real coordinate (c div enc_m) * 2^enc_k +
+    /// (c mod enc_m), with c mod enc_m < enc_l.  enc_m = 0: the coordinate is c itself.
+    enc_m: i64,
+    enc_l: i64,
+    enc_k: i32,
+    /// "inherent" (DBSCAN::fit / DBSCAN::predict) or "trait" (UnsupervisedEstimator::fit /
+    /// Predictor::predict of smartcore::api)
+    api: String,
 }
 
-fn conv<T: RealNumber>(v: i64, s: i32) -> T {
-    // |v| < 2^20 and |s| <= 24: v * 2^s is exact in f64 and in f32
-    T::from_f64(v as f64 * 2f64.powi(s)).unwrap()
+fn conv<T: RealNumber>(v: i64, c: &Case) -> T {
+    // plain: |v| < 2^30 and |s| <= 50: v * 2^s is exact in f64 (and in f32 for |v| < 2^24)
+    // two-level: hi * 2^k + lo with hi < 8, k <= 48, lo < 2^12 has at most 51 significant bits
+    let real = if c.enc_m > 0 {
+        (v.div_euclid(c.enc_m) as f64) * 2f64.powi(c.enc_k) + (v.rem_euclid(c.enc_m) as f64)
+    } else {
+        v as f64
+    };
+    T::from_f64(real * 2f64.powi(c.scale_exp)).unwrap()
 }
 
 fn radius<T: RealNumber>(key: &str, eps: i64, s: i32) -> T {
@@ -73,6 +89,7 @@ fn fit_one<T, D>(
     min_pts: usize,
     backend: &'static str,
     dist: D,
+    use_trait: bool,
 ) -> Value
 where
     T: RealNumber + Serialize + Send + 'static,
@@ -90,7 +107,12 @@ where
             .with_min_samples(min_pts)
             .with_algorithm(algo)
             .with_distance(dist);
-        match DBSCAN::fit(&x, params) {
+        let fitted = if use_trait {
+            <DBSCAN<T, D> as UnsupervisedEstimator<DenseMatrix<T>, DBSCANParameters<T, D>>>::fit(&x, params)
+        } else {
+            DBSCAN::fit(&x, params)
+        };
+        match fitted {
             Err(_) => failed_fit(backend, "err"),
             Ok(m) => {
                 let dump = serde_json::to_value(&m).expect("serde dump of the fitted model");
@@ -107,7 +129,13 @@ where
                     ("none", false, vec![])
                 } else {
                     let q = DenseMatrix::from_2d_vec(&qrows);
-                    match guard(|| m.predict(&q)) {
+                    match guard(|| {
+                        if use_trait {
+                            <DBSCAN<T, D> as Predictor<DenseMatrix<T>, Vec<T>>>::predict(&m, &q)
+                        } else {
+                            m.predict(&q)
+                        }
+                    }) {
                         Ok(Ok(v)) => {
                             let f: Vec<f64> = v.iter().map(|t| t.to_f64().unwrap_or(f64::NAN)).collect();
                             match intv(&f) {
@@ -138,17 +166,17 @@ where
     let rows: Vec<Vec<T>> = c
         .pts
         .iter()
-        .map(|p| p.iter().map(|&v| conv::<T>(v, c.scale_exp)).collect())
+        .map(|p| p.iter().map(|&v| conv::<T>(v, c)).collect())
         .collect();
     let qrows: Vec<Vec<T>> = c
         .qs
         .iter()
-        .map(|p| p.iter().map(|&v| conv::<T>(v, c.scale_exp)).collect())
+        .map(|p| p.iter().map(|&v| conv::<T>(v, c)).collect())
         .collect();
     let eps: T = radius::<T>(&c.key, c.eps, c.scale_exp);
     let mut out = Vec::new();
     for backend in ["linear", "cover"].iter() {
-        out.push(fit_one(rows.clone(), qrows.clone(), eps, c.min_pts, *backend, dist.clone()));
+        out.push(fit_one(rows.clone(), qrows.clone(), eps, c.min_pts, *backend, dist.clone(), c.api == "trait"));
     }
     out
 }
@@ -216,7 +244,9 @@ fn run_case(rn: &mut Runner, run: i64, c: &Case) -> Value {
     let fits = rn.fits(c);
     json!({"run": run, "ev": c.ev, "src": c.src, "case": c.case, "pts": c.pts, "key": c.key,
            "eps": c.eps, "minPts": c.min_pts, "metric": c.metric, "ty": c.ty,
-           "scaleExp": c.scale_exp, "qs": c.qs, "fits": fits})
+           "scaleExp": c.scale_exp, "qs": c.qs,
+           "enc": {"M": c.enc_m, "L": c.enc_l, "K": c.enc_k},
+           "api": if c.api == "trait" { "trait" } else { "inherent" }, "fits": fits})
 }
 
 // ------------------------------------------------------------------ input generation only
@@ -475,6 +505,8 @@ fn gen_case(r: &mut StdRng, n: usize) -> Case {
         ty: ty.into(),
         scale_exp,
         qs,
+        api: (if r.gen_bool(0.3) { "trait" } else { "inherent" }).into(),
+        ..Default::default()
     }
 }
 
@@ -531,6 +563,177 @@ fn gen_spread_case(r: &mut StdRng) -> Case {
         ty: ty.into(),
         scale_exp,
         qs,
+        api: (if r.gen_bool(0.3) { "trait" } else { "inherent" }).into(),
+        ..Default::default()
+    }
+}
+
+/// Size ladder: n rows (beyond the property's "~150") of a 1-D / 2-D lattice.  The leading
+/// rows are sparse filler; a chain (steps exactly eps) or a blob that forms the clusters is
+/// stored LATE in the row order (after the filler), so a structure that mis-numbers rows
+/// beyond an internal block boundary moves labels / votes to other rows.
+fn gen_late_case(r: &mut StdRng, n: usize) -> Case {
+    let d = *[1usize, 1, 2].choose(r).unwrap();
+    let key = if r.gen_bool(0.5) { "man" } else { "euc2" };
+    let step = r.gen_range(1..=2i64);
+    let late = r.gen_range(6..=60usize).min(n - 1);
+    let mut pts: Vec<Vec<i64>> = Vec::with_capacity(n);
+    // filler: rows at least 3 steps apart from each other, far left of the late structure
+    for i in 0..(n - late) {
+        let mut p = vec![0i64; d];
+        p[0] = -(4 * step) * (i as i64 + 2);
+        if d == 2 {
+            p[1] = r.gen_range(-2..=2) * 4 * step;
+        }
+        pts.push(p);
+    }
+    let fam = if r.gen_bool(0.5) { "chain" } else { "blobs" };
+    let mut tail = gen_points(r, fam, late, d, step);
+    for p in tail.iter_mut() {
+        p[0] += 20 * step;
+    }
+    pts.extend(tail);
+    if r.gen_bool(0.25) {
+        pts.shuffle(r);
+    }
+    let eps = if key == "man" { step } else { step * step };
+    let min_pts = r.gen_range(1..=4usize);
+    let metric = if key == "euc2" { "euclidean" } else if r.gen_bool(0.5) { "manhattan" } else { "minkowski1" };
+    let ty = if r.gen_bool(0.25) { "f32" } else { "f64" };
+    let qs = random_queries(r, &pts, key, eps);
+    Case {
+        ev: "Run".into(),
+        src: "late".into(),
+        case: -1,
+        pts,
+        key: key.into(),
+        eps,
+        min_pts,
+        metric: metric.into(),
+        ty: ty.into(),
+        scale_exp: if r.gen_bool(0.3) { r.gen_range(-8..=8) } else { 0 },
+        qs,
+        api: (if r.gen_bool(0.3) { "trait" } else { "inherent" }).into(),
+        ..Default::default()
+    }
+}
+
+/// Multi-scale dyadic sets: a few rows far apart (extent about 3 * 2^K) and one or two tight
+/// groups whose rows are a few units apart, K = 40..48, eps a few units.  The coordinates are
+/// written in the two-level code of `Case::enc_*` (code = hi * M + lo, real = hi * 2^K + lo,
+/// lo < L), which the specification checks and under which "within eps" is the same relation
+/// on codes and on real coordinates.  Everything is dyadic, hence exact in f64.  The cover
+/// tree needs > 100 levels to separate the rows of a group.
+fn gen_multiscale_case(r: &mut StdRng) -> Case {
+    let (m, l) = (4096i64, 256i64);
+    let k = r.gen_range(40..=48);
+    let d = *[1usize, 1, 2, 2, 3].choose(r).unwrap();
+    let key = if r.gen_bool(0.5) { "man" } else { "euc2" };
+    let mut pts: Vec<Vec<i64>> = Vec::new();
+    for _ in 0..r.gen_range(2..=6usize) {
+        pts.push((0..d).map(|_| r.gen_range(0..=3) * m + r.gen_range(0..4)).collect());
+    }
+    let step = r.gen_range(1..=3i64);
+    for _ in 0..r.gen_range(1..=2usize) {
+        let anchor: Vec<i64> = (0..d).map(|_| r.gen_range(0..=3) * m + r.gen_range(20..100)).collect();
+        let g = r.gen_range(3..=24usize);
+        let axis = r.gen_range(0..d);
+        for j in 0..g {
+            let mut p = anchor.clone();
+            if r.gen_bool(0.7) {
+                p[axis] += (j as i64) * step; // a chain, steps exactly `step`
+            } else {
+                for c in p.iter_mut() {
+                    *c += r.gen_range(-6..=6) * step;
+                }
+            }
+            pts.push(p);
+        }
+    }
+    if r.gen_bool(0.6) {
+        pts.shuffle(r);
+    }
+    let eps = if key == "man" { step * r.gen_range(1..=2) } else { step * step * r.gen_range(1..=2) };
+    let n = pts.len();
+    let mut qs: Vec<Vec<i64>> = Vec::new();
+    for _ in 0..3 {
+        qs.push(pts[r.gen_range(0..n)].clone());
+    }
+    for _ in 0..3 {
+        let mut q = pts[r.gen_range(0..n)].clone();
+        let j = r.gen_range(0..d);
+        let lo = q[j].rem_euclid(m);
+        let nlo = (lo + r.gen_range(-3..=3) * step).max(0).min(l - 1);
+        q[j] += nlo - lo;
+        qs.push(q);
+    }
+    qs.push((0..d).map(|_| 5 * m + 7).collect()); // far from everything
+    Case {
+        ev: "Run".into(),
+        src: "multiscale".into(),
+        case: -1,
+        pts,
+        key: key.into(),
+        eps,
+        min_pts: r.gen_range(1..=4usize),
+        metric: (if key == "euc2" { "euclidean" } else if r.gen_bool(0.5) { "manhattan" } else { "minkowski1" }).into(),
+        ty: "f64".into(),
+        scale_exp: if r.gen_bool(0.7) { -k } else { r.gen_range(-60..=0) },
+        qs,
+        enc_m: m,
+        enc_l: l,
+        enc_k: k,
+        api: (if r.gen_bool(0.3) { "trait" } else { "inherent" }).into(),
+    }
+}
+
+/// Geometric sets: coordinates +-2^j (j <= 27), sorted, anti-sorted or shuffled, with some
+/// duplicates: every doubling adds levels to the cover tree.  Manhattan keys only (squared
+/// distances would not fit the specification's 32-bit integers); f64.
+fn gen_geometric_case(r: &mut StdRng) -> Case {
+    let d = *[1usize, 1, 2].choose(r).unwrap();
+    let n = r.gen_range(6..=40usize);
+    let mut pts: Vec<Vec<i64>> = Vec::with_capacity(n);
+    for i in 0..n {
+        if i > 0 && r.gen_bool(0.15) {
+            let p = pts[r.gen_range(0..i)].clone();
+            pts.push(p);
+            continue;
+        }
+        pts.push(
+            (0..d)
+                .map(|_| {
+                    let j = if r.gen_bool(0.5) { (i % 28) as u32 } else { r.gen_range(0..=27u32) };
+                    let v = 1i64 << j;
+                    if r.gen_bool(0.2) { -v } else if r.gen_bool(0.1) { 0 } else { v }
+                })
+                .collect(),
+        );
+    }
+    match r.gen_range(0..3) {
+        0 => pts.sort(),
+        1 => {
+            pts.sort();
+            pts.reverse();
+        }
+        _ => pts.shuffle(r),
+    }
+    let eps = if r.gen_bool(0.6) { 1i64 << r.gen_range(0..=27u32) } else { r.gen_range(1..=64) };
+    let qs = random_queries(r, &pts, "man", eps);
+    Case {
+        ev: "Run".into(),
+        src: "geometric".into(),
+        case: -1,
+        pts,
+        key: "man".into(),
+        eps,
+        min_pts: r.gen_range(1..=4usize),
+        metric: (if r.gen_bool(0.5) { "manhattan" } else { "minkowski1" }).into(),
+        ty: "f64".into(),
+        scale_exp: if r.gen_bool(0.3) { r.gen_range(-30..=20) } else { 0 },
+        qs,
+        api: (if r.gen_bool(0.3) { "trait" } else { "inherent" }).into(),
+        ..Default::default()
     }
 }
 
@@ -562,6 +765,10 @@ fn case_of_json(v: &Value) -> Case {
         ty: v.get("ty").and_then(|x| x.as_str()).unwrap_or("f64").to_string(),
         scale_exp: v.get("scaleExp").and_then(|x| x.as_i64()).unwrap_or(0) as i32,
         qs,
+        enc_m: v.get("enc").and_then(|e| e.get("M")).and_then(|x| x.as_i64()).unwrap_or(0),
+        enc_l: v.get("enc").and_then(|e| e.get("L")).and_then(|x| x.as_i64()).unwrap_or(0),
+        enc_k: v.get("enc").and_then(|e| e.get("K")).and_then(|x| x.as_i64()).unwrap_or(0) as i32,
+        api: v.get("api").and_then(|x| x.as_str()).unwrap_or("inherent").to_string(),
     }
 }
 
@@ -612,6 +819,38 @@ fn main() {
             for _ in 0..nspread {
                 run += 1;
                 out.emit(run_case(&mut rn, run, &gen_spread_case(&mut r)));
+            }
+            // size ladder: data sets and predict batches across internal block sizes
+            let ladder: &[usize] = if th {
+                &[63, 64, 65, 127, 128, 129, 255, 256, 257, 300, 400, 511, 512, 513, 1023, 1024, 1025]
+            } else {
+                &[255, 256, 257, 300, 400, 513]
+            };
+            for &n in ladder.iter() {
+                run += 1;
+                out.emit(run_case(&mut rn, run, &gen_late_case(&mut r, n)));
+            }
+            let generic: &[usize] = if th { &[200, 257, 260, 384, 520, 700] } else { &[260, 384] };
+            for &n in generic.iter() {
+                run += 1;
+                out.emit(run_case(&mut rn, run, &gen_case(&mut r, n)));
+            }
+            // long predict batches on a small model
+            for &nq in (if th { &[255usize, 256, 257, 513, 1025][..] } else { &[257usize, 300][..] }).iter() {
+                let mut c = gen_case(&mut r, 24);
+                let base = c.qs.clone();
+                c.qs = (0..nq).map(|i| if i % 3 == 0 { c.pts[(i / 3) % c.pts.len()].clone() } else { base[i % base.len()].clone() }).collect();
+                c.src = "longbatch".into();
+                run += 1;
+                out.emit(run_case(&mut rn, run, &c));
+            }
+            // deep structures
+            let ndeep = if th { 400 } else { 60 };
+            for _ in 0..ndeep {
+                run += 1;
+                out.emit(run_case(&mut rn, run, &gen_multiscale_case(&mut r)));
+                run += 1;
+                out.emit(run_case(&mut rn, run, &gen_geometric_case(&mut r)));
             }
             // parameters outside the statement's domain (recorded, nothing is demanded)
             for &(eps, mp) in [(0i64, 2usize), (-1, 2), (1, 0), (0, 0)].iter() {
